@@ -61,6 +61,8 @@ structure OutFunc where
   tyIdx : Nat
   locals : List (Nat × String)
   ops : List Op
+  id : Nat := 0                           -- FunctionId
+  marks : List (Nat × Nat) := []          -- raw location map of the `Emit` visitor
   deriving Repr
 
 structure OutCode where
@@ -132,8 +134,8 @@ def emitCode (c : InCode) (pfs : List ParsedFunc) : Option OutCode :=
     let tyOf := fun l => match f.localTys.find? (·.1 = l) with | some q => q.2 | none => "?"
     let (decls, lmap) := emitLocals f.args tyOf used
     let maps : IdMaps := { funcs := funcMap, types := tyMap, locals := lmap, identity := ["t", "g", "m", "d", "e"] }
-    match emitBody maps ar 0, assoc tyMap f.ty with
-    | some ops, some t => some (⟨t, decls, ops⟩ : OutFunc)
+    match emitBodyMarks maps ar 0, assoc tyMap f.ty with
+    | some (ops, marks), some t => some (⟨t, decls, ops, f.id, marks⟩ : OutFunc)
     | _, _ => none
   outs.map fun fs => ⟨sortedTy.map (·.2), fs, sorted.map (fun p => p.1.id - c.importedFuncs)⟩
 
